@@ -128,11 +128,29 @@ Definition XMPP_EINVOP : Z := -2.
 (* ------------------------------------------------------------------------------------ *)
 Definition cells := list (option Z).
 
+(* overwrite the first |s| cells; None = the run does not fit *)
+Fixpoint zwrite (rest : cells) (s : bstr) {struct s} : option cells :=
+  match s with
+  | [] => Some rest
+  | c :: s' =>
+      match rest with
+      | [] => None
+      | _ :: r => match zwrite r s' with Some r' => Some (Some c :: r') | None => None end
+      end
+  end.
+
+Fixpoint wr_at (n : nat) (buf : cells) (s : bstr) : option cells :=
+  match n with
+  | O => zwrite buf s
+  | S k => match buf with
+           | [] => None
+           | c :: r => match wr_at k r s with Some r' => Some (c :: r') | None => None end
+           end
+  end.
+
 (* checked write of a run of bytes at offset p; None = outside the allocation *)
 Definition wr_bytes (buf : cells) (p : Z) (s : bstr) : option cells :=
-  if (0 <=? p) && (p + zlen s <=? zlen buf) then
-    Some (firstn (Z.to_nat p) buf ++ map Some s ++ skipn (Z.to_nat (p + zlen s)) buf)
-  else None.
+  if p <? 0 then None else wr_at (Z.to_nat p) buf s.
 
 (* the C string starting at the first cell: None when an unwritten cell or the end of the
    allocation is met before a terminator *)
@@ -169,21 +187,43 @@ Fixpoint esc_len (s : bstr) (len : Z) : Z :=
   | c :: r => esc_len r (len + esc_len1 c)
   end.
 
-(* second pass over the (len+1)-byte allocation: strcpy(dst, ent) writes the terminator too *)
-Fixpoint esc_fill (s : bstr) (buf : cells) (dst : Z) : option (cells * Z) :=
+(* second pass over the (len+1)-byte allocation.  The allocation and the moving pointer dst are kept as
+   a zipper: `done` holds the cells below dst (nearest first), `rest` the cells from dst to the end of
+   the allocation.  A write beyond the end of `rest` is outside the allocation. *)
+(* dst += n *)
+Fixpoint zadvance (n : nat) (done rest : cells) : option (cells * cells) :=
+  match n with
+  | O => Some (done, rest)
+  | S k => match rest with
+           | [] => None
+           | c :: r => zadvance k (c :: done) r
+           end
+  end.
+
+Fixpoint esc_fill (s : bstr) (done rest : cells) : option (cells * cells) :=
   match s with
-  | [] => Some (buf, dst)
+  | [] => Some (done, rest)
   | c :: r =>
       match lookup esc_table c with
       | Some ent =>
-          match wr_bytes buf dst (ent ++ [0]) with
+          (* strcpy(dst, ent) writes the terminator too; dst += N *)
+          match zwrite rest (ent ++ [0]) with
           | None => None
-          | Some b => esc_fill r b (dst + match lookup esc_adv_table c with Some a => a | None => 0 end)
+          | Some rest' =>
+              match zadvance (Z.to_nat (match lookup esc_adv_table c with Some a => a | None => 0 end)) done rest' with
+              | None => None
+              | Some (d', r') => esc_fill r d' r'
+              end
           end
       | None =>
-          match wr_bytes buf dst [c] with
+          (* *dst = *src; dst++ *)
+          match zwrite rest [c] with
           | None => None
-          | Some b => esc_fill r b (dst + 1)
+          | Some rest' =>
+              match zadvance 1 done rest' with
+              | None => None
+              | Some (d', r') => esc_fill r d' r'
+              end
           end
       end
   end.
@@ -196,12 +236,12 @@ Inductive eres : Type :=
 Definition escape_xml (s : bstr) : eres :=
   let len := esc_len s 0 in
   let buf := repeat None (Z.to_nat (len + 1)) in
-  match esc_fill s buf 0 with
+  match esc_fill s [] buf with
   | None => EOOB
-  | Some (b, dst) =>
-      match wr_bytes b dst [0] with
+  | Some (done, rest) =>
+      match zwrite rest [0] with
       | None => EOOB
-      | Some b' => match cstring b' with Some str => EOk str | None => EUninit end
+      | Some rest' => match cstring (rev_append done rest') with Some str => EOk str | None => EUninit end
       end
   end.
 
